@@ -69,7 +69,9 @@ impl ResolvedCalendarFields {
 
 fn resolve_day(day: Option<u8>, is_year_month: bool) -> TemporalResult<u8> {
     if is_year_month {
-        Ok(day.unwrap_or(1))
+        // A year-month is determined by its year and month: the record's day is not read.
+        let _ = day;
+        Ok(1)
     } else {
         day.ok_or(TemporalError::r#type().with_message("Required day field is empty."))
     }
